@@ -264,6 +264,22 @@ example :
   (C13_iff _ _ (by decide) (by decide) (by decide) (by decide)).mpr rfl
 
 
+/-- `C13_ignores_prefix` / `C13_ignores_attribute_order` / `C13_children`: the hypotheses hold of
+    concrete trees. -/
+example : deepEqual (.node (.element 2) [.node (.namespace 2 2) [], .node (.text ['x']) []])
+    (.node (.element 2) [.node (.namespace 3 2) [], .node (.text ['x']) []]) = true :=
+  C13_ignores_prefix (.element 2) [] [.node (.text ['x']) []] 2 3 2 (by decide) (by decide) (by decide)
+
+example : deepEqual (.node (.element 2) [.node (.attribute 3 ['v']) [], .node (.attribute 4 []) [], .node (.text ['x']) []])
+    (.node (.element 2) [.node (.attribute 4 []) [], .node (.attribute 3 ['v']) [], .node (.text ['x']) []]) = true :=
+  C13_ignores_attribute_order (.element 2) [] [.node (.attribute 3 ['v']) [], .node (.attribute 4 []) []]
+    [.node (.attribute 4 []) [], .node (.attribute 3 ['v']) []] [.node (.text ['x']) []]
+    (List.Perm.swap _ _ _) (by decide) (by decide) (by decide) (by decide)
+
+example : deepEqualChildren (.node (.element 2) [.node (.attribute 3 ['v']) [], .node (.text ['x']) []])
+    (.node .document [.node (.text ['x']) []]) = true :=
+  (C13_children _ _ (by decide) (by decide)).mpr rfl
+
 /-- `C13_xpath`: two valid elements that differ in a comment and in the case of a text. -/
 example : Tree.validRootFor xpathKeep
     (.node (.element 2) [.node (.attribute 3 ['v']) [], .node (.comment ['c']) [], .node (.text ['x']) []]) = true := by
